@@ -115,21 +115,26 @@ class Rel:
 
         self.n += 1
         try:
-            err = float(np.max(np.abs(np.asarray(got, dtype=float) - np.asarray(want, dtype=float))))
+            diff = np.abs(np.asarray(got, dtype=float) - np.asarray(want, dtype=float))
+            tolarr = np.broadcast_to(np.asarray(tol, dtype=float), diff.shape)
+            err = float(np.max(diff)) if diff.size else 0.0
+            with np.errstate(divide="ignore", invalid="ignore"):
+                ratios = np.where(tolarr > 0, diff / tolarr, np.where(diff == 0, 0.0, np.inf))
+            r = float(np.max(ratios)) if diff.size else 0.0
+            tolmin = float(np.min(tolarr)) if diff.size else float(np.min(np.asarray(tol, dtype=float)))
         except Exception as e:  # shape mismatch etc.
             self.viol.append({"relation": name, "detail": {"error": repr(e), **extra}})
             return False
-        if not (err == err):
+        if not (err == err) or not (r == r):
             self.viol.append({"relation": name, "detail": {"got": got, "want": want, "err": "nan", **extra}})
             return False
-        r = err / tol if tol > 0 else (0.0 if err == 0 else float("inf"))
-        if err <= tol and r > self.margin:
-            self.margin = r  # margin = how close PASSING relations come to their tolerance
-            self.margin_at = name
-        if err > tol:
-            self.viol.append({"relation": name, "detail": {"got": got, "want": want, "err": err, "tol": tol, **extra}})
-            return False
-        return True
+        if r <= 1.0:
+            if r > self.margin:
+                self.margin = r  # margin = how close PASSING relations come to their tolerance
+                self.margin_at = name
+            return True
+        self.viol.append({"relation": name, "detail": {"got": got, "want": want, "err": err, "tol": tolmin, "ratio": r, **extra}})
+        return False
 
     def true(self, name: str, cond, **extra) -> bool:
         self.n += 1
